@@ -13,6 +13,7 @@ pub mod codegen;
 pub mod router;
 pub mod rpc;
 pub mod conn;
+pub mod connreplay;
 pub mod smoke;
 pub mod tables;
 pub mod teardown;
@@ -58,6 +59,7 @@ pub fn dispatch(args: &[String]) -> i32 {
         "teardown" => teardown::main(&a),
         "apstress" => apstress::main(&a),
         "replay-ap" => apreplay::replay(&a),
+        "replay-conn" => connreplay::main(&a),
         "c10" => c10::main(&a),
         "c13" => c13::main(&a),
         "rpc" => rpc::main(&a),
